@@ -8,6 +8,7 @@ require (
 	github.com/ethereum/go-ethereum v1.15.8
 	github.com/go-pkgz/expirable-cache/v3 v3.0.0
 	github.com/holiman/uint256 v1.3.2
+	github.com/protolambda/bls12-381-util v0.1.0
 	github.com/protolambda/zrnt v0.34.1
 	github.com/protolambda/ztyp v0.2.2
 	github.com/zen-eth/shisui v0.0.0
@@ -63,7 +64,6 @@ require (
 	github.com/prometheus/client_model v0.6.1 // indirect
 	github.com/prometheus/common v0.60.1 // indirect
 	github.com/prometheus/procfs v0.15.1 // indirect
-	github.com/protolambda/bls12-381-util v0.1.0 // indirect
 	github.com/rivo/uniseg v0.2.0 // indirect
 	github.com/rogpeppe/go-internal v1.13.1 // indirect
 	github.com/shirou/gopsutil v3.21.4-0.20210419000835-c7a38de76ee5+incompatible // indirect
